@@ -298,13 +298,16 @@ func (m *Machine) concretize(t *smt.Term, max int, what string) uint64 {
 
 // nondet creates (or, in concrete mode, reads) the next input.
 func (m *Machine) nondet(name string, w int) *smt.Term {
-	if name == "maporder" {
-		// auxiliary choice (map iteration order): not part of the replay vector
+	if name == "maporder" || strings.HasPrefix(name, "aux:") {
+		// auxiliary choice (map iteration order, havoc stubs): not part of the replay vector
 		if m.vector != nil {
-			return m.ctx.BV(0, w)
+			if name == "maporder" {
+				return m.ctx.BV(0, w)
+			}
+			m.abort("unsupported", "havoc stub "+name+" reached in concrete mode")
 		}
 		m.nameSeq++
-		return m.ctx.Var(fmt.Sprintf("aux%d_maporder", m.nameSeq), w)
+		return m.ctx.Var(fmt.Sprintf("aux%d_%s", m.nameSeq, sanitize(name)), w)
 	}
 	k := len(m.nondets)
 	var t *smt.Term
@@ -652,7 +655,7 @@ func (m *Machine) ensureInit(p *ssa.Package) {
 				}
 			}
 		}()
-		m.callFn(init, nil, nil)
+		m.runFunction(init, nil, nil)
 	}()
 }
 
